@@ -428,6 +428,6 @@ SUBS = [
 
 MANIFEST = {
     "technique": "property-based testing: Hypothesis draws a model, an order-permuted independent rebuild and single-point edits; oracle = the equality/hash contract (reflexive, symmetric, hash-consistent, order-insensitive, edit-sensitive)",
-    "level_text": "Generated-input search over models, permuted copies and eleven kinds of single-point edits; each pair is checked against the algebraic contract. Sampling only - no exhaustive sub-domain.",
+    "level_text": "Generated-input search over models, permuted copies and eleven kinds of single-point edits; each pair is checked against the algebraic contract. Sampling only - no exhaustive sub-domain. Also: relations [a..*], repeated constraints, name variants (case, blanks, zero-padded digit runs), in-place edits after objects were compared/hashed/sorted. A sample of every sub-check additionally runs in a `python -OO` child with the root logger at DEBUG.",
     "level_note": "Trusted: the edit functions in vf/props/c20.py really change the named aspect and keep models well-formed; Hypothesis.",
 }
